@@ -6,5 +6,5 @@ From GV Require Import Thread.SpecS Thread.Proto.
 Extraction Language OCaml.
 Extraction "model.ml" Z.add N.add Nat.add Pos.add
   SpecS.srun SpecS.out_st SpecS.alive
-  Proto.first_reject Proto.accepts Proto.init Proto.current Proto.old_order Proto.repaired
+  Proto.first_reject Proto.accepts Proto.init Proto.current Proto.old_order Proto.old_handlers
   Proto.can_step Proto.main_done.
